@@ -32,10 +32,14 @@ def _copy_tree(root, dst):
                         ignore=shutil.ignore_patterns("__pycache__", "*.pyc"))
 
 
-def _violation_keys(prop, root):
+def _violation_keys(prop, root, with_partial=False):
     from bin.check import run_check
     ctx = run_check(prop, root)
-    return sorted({(o.rule, o.key) for o in ctx.violations})
+    keys = sorted({(o.rule, o.key) for o in ctx.violations})
+    if with_partial:
+        # the driver answers exit 2 when the analysis gave up and every violation found so far is a known one
+        return keys, getattr(ctx, "partial", None)
+    return keys
 
 
 def _run_variant(args):
@@ -57,8 +61,7 @@ def _run_variant(args):
                 return dict(name=v["name"], kind=v["kind"], rule=v.get("rule"), verdict="broken-variant", detail="does not parse: %s" % e)
             open(path, "w", encoding="utf-8").write(src)
         try:
-            keys = _violation_keys(prop, tmp)
-            err = None
+            keys, err = _violation_keys(prop, tmp, with_partial=True)
         except AnalysisError as e:
             keys, err = [], str(e)
         except Exception as e:   # the driver turns any internal error into exit 2 as well
@@ -100,8 +103,7 @@ def _run_seeded(args):
         if r.returncode != 0:
             return dict(name="seeded:" + name, kind="seeded", rule=None, verdict="stale", detail="patch does not apply to the current tree")
         try:
-            keys = _violation_keys(prop, tmp)
-            err = None
+            keys, err = _violation_keys(prop, tmp, with_partial=True)
         except AnalysisError as e:
             keys, err = [], str(e)
         except Exception as e:
